@@ -966,7 +966,20 @@ def rule_PR1(ctx, rep):
             if _plus_one_party(x) is not None:
                 P = _plus_one_party(x)
         good = rb and rb[0] == Lin(1) and rb[1] == Lin.sym('d') and norm(pw[0].elt.right) == norm(pw[0].generators[0].target) and P is not None and norm(P) == f0n.params[2]
-    if good:
+        # the point is an element of the field's value domain (int or polynomial): powers and products then use the field's own
+        # arithmetic -- for a binary / extension field an int base would multiply with carries instead of as a polynomial
+        from . import routes
+        pmn = parents(f0n.node)
+        bx = routes.xp(f0n, base, pw[0], pmn)
+        typed = isinstance(bx, ast.Call) and len(bx.args) == 1 and norm(bx.func) in (f'type({f0n.params[0]}.modulus)',)
+        if good and not typed:
+            good = False
+            rep.bad('PR1', f0n, pw[0], f'the evaluation point {norm(base)} of the array zero-sharing is not converted to the field\'s value type type({f0n.params[0]}.modulus): '
+                    'for binary and extension fields its powers are integer powers, not polynomial ones, so parties with x >= 3 leave the common polynomial')
+            good = None
+    if good is None:
+        pass
+    elif good:
         rep.ok('PR1', f0n, pw[0], 'array variant: powers (i+1)^1..(i+1)^d')
     else:
         rep.bad('PR1', f0n, pw[0] if pw else f0n.qualname, 'array variant does not use the powers (i+1)^1..(i+1)^d', f0n.node)
